@@ -55,6 +55,29 @@ def gen_case(rng, cid, nev):
     return dict(id=cid, minage_ms=minage, count=count, hasfn=hasfn, events=evs)
 
 
+def gen_overfull(rng, cid):
+    """a cache pushed two or more entries over its limit while every cleanup fails (both versions keep those entries), then
+    cleanups that succeed again: the next insertion has to be followed by pruning back to the limit"""
+    count = rng.choice([1, 2, 2, 3])
+    keys = ["k%d" % i for i in range(8)]
+    evs, v = [], 0
+    for k in keys[:count]:
+        v += 1
+        evs.append(dict(op="set", k=k, v=v, age_ms=0, fails=[]))
+        evs.append(dict(op="get", k=k, age_ms=(count - v + 2) * 7 * MIN))
+    over = rng.randrange(2, 4)
+    for k in keys[count:count + over]:
+        v += 1
+        evs.append(dict(op="set", k=k, v=v, age_ms=0, fails=list(keys)))
+        if rng.random() < 0.5:
+            evs.append(dict(op="get", k=k, age_ms=MIN // 2 + v))
+    for k in keys[count + over:count + over + rng.randrange(1, 3)]:
+        v += 1
+        evs.append(dict(op="set", k=k, v=v, age_ms=0, fails=[] if rng.random() < 0.8 else [keys[0]]))
+    evs.append(dict(op="get", k=keys[0], age_ms=3 * MIN))
+    return dict(id=cid, minage_ms=rng.choice([0, 3600000]), count=count, hasfn=True, events=evs)
+
+
 def gen_burst(rng, cid):
     """schedules: a Set beyond the limit whose background prune races with removals and further Sets (not waited for);
     after quiescence the clauses that hold for every interleaving are checked (oracle_burst)"""
@@ -246,6 +269,8 @@ def run(ctx):
         n = 1500 if ctx.tier == "quick" else 60000
         for i in range(n):
             cases.append(gen_case(ctx.rng, len(cases) + 1, ctx.rng.randrange(3, 25)))
+        for i in range(n // 15):
+            cases.append(gen_overfull(ctx.rng, len(cases) + 1))
     bursts = []
     if not ctx.replay:
         for i in range(300 if ctx.tier == "quick" else 6000):
